@@ -39,6 +39,7 @@ const (
 	itZeroField
 	itReordered
 	itGov
+	itPartialQC // not a transaction: the certificate of this block is signed by a minimal quorum (one non-signer)
 	nItems
 )
 
@@ -138,6 +139,7 @@ var items = [nItems]item{
 	itGov: {"govParam", "approved-change-parameter", func(w *world, h uint64) []byte {
 		return mustTx(fsm.NewChangeParamTxUint64(env.BLS(0), fsm.ParamSpaceVal, fsm.ParamMaxPauseBlocks, 4380+h, 1, 1000, env.NetworkID, env.ChainID, 10000, h, ""))
 	}},
+	itPartialQC: {"partialQC", "certificate-with-non-signer", nil},
 }
 
 func noncanonical(i int) bool { return i == itZeroField || i == itReordered }
@@ -164,7 +166,8 @@ func genesis() (*fsm.GenesisState, int) {
 	sample := send(10, 11, 1000, 1, "")
 	acc := map[int]uint64{0: 10_000_000, 1: 10_000_000, 2: 10_000_000,
 		10: 10_000_000, 11: 10_000_000, 12: 10_000_000, 13: 10_000_000, 14: 50_000, 15: 100_000, 16: 10_000_000}
-	vals := []env.ValSpec{{Key: 0, Stake: 1_000_000, OutputKey: -1}, {Key: 1, Stake: 1_000_000, OutputKey: -1}, {Key: 2, Stake: 1_000_000, OutputKey: -1}}
+	// four validators: three of them are a quorum, so a certificate can have a non-signer (key 3)
+	vals := []env.ValSpec{{Key: 0, Stake: 1_000_000, OutputKey: -1}, {Key: 1, Stake: 1_000_000, OutputKey: -1}, {Key: 2, Stake: 1_000_000, OutputKey: -1}, {Key: 3, Stake: 1_000_000, OutputKey: -1}}
 	g := env.NewGenesis(acc, vals, func(p *fsm.Params) {
 		// room for two plain sends and a little more, but not for a third one
 		p.Consensus.BlockSize = lib.MaxBlockHeaderSize + uint64(2*len(sample)+len(sample)/2)
@@ -194,6 +197,7 @@ type blockReport struct {
 	Included  []string `json:"included"`
 	Hash      string   `json:"hash"`
 	StateRoot string   `json:"state_root"`
+	PartialQC bool     `json:"partial_qc,omitempty"`
 }
 
 type problem struct {
@@ -208,7 +212,13 @@ func (w *world) step(mempool []int) (rep blockReport, probs []problem, fatal err
 	rep.Height = h
 	var txs [][]byte
 	approve := fsm.GovProposals{}
+	var signers []int
 	for _, it := range mempool {
+		if it == itPartialQC {
+			signers = []int{0, 1, 2}
+			rep.Offered = append(rep.Offered, items[it].name)
+			continue
+		}
 		bz := items[it].make(w, h)
 		if w.made == nil {
 			w.made = map[string]string{}
@@ -262,10 +272,11 @@ func (w *world) step(mempool []int) (rep blockReport, probs []problem, fatal err
 		probs = append(probs, problem{kind: "O1-replica-rejects-honest-proposal", what: fmt.Sprintf("B.ValidateProposal(A.ProduceProposal()) at height %d: %v%s", h, oneLine(e), diff)})
 		return rep, probs, nil
 	}
-	qc, e := w.A.Certify(p, 0, nil, 0)
+	qc, e := w.A.Certify(p, 0, signers, 0)
 	if e != nil {
 		return rep, nil, e
 	}
+	rep.PartialQC = signers != nil
 	msg := &lib.BlockMessage{ChainId: env.ChainID, BlockAndCertificate: qc, Time: 1_700_000_000_000_000}
 	wire, e := env.WireCopy(msg)
 	if e != nil {
